@@ -6,6 +6,7 @@ import (
 	"crypto/sha256"
 	"fmt"
 	"math/big"
+	"strings"
 	"testing"
 
 	"github.com/ethereum/go-ethereum/common"
@@ -15,12 +16,13 @@ import (
 
 	"github.com/teleport-network/teleport/syscontracts"
 	stakingcontract "github.com/teleport-network/teleport/syscontracts/staking"
+	agentcontract "github.com/teleport-network/teleport/syscontracts/xibc_agent"
 
 	"verif/harness/core"
 	"verif/harness/pkt"
 )
 
-var callKinds = []string{"", "counter", "reverter", "bad-receiver", "", "hard-failure"}
+var callKinds = []string{"", "counter", "reverter", "bad-receiver", "", "hard-failure", "agent-second-hop"}
 
 type mon struct {
 	r   *core.Run
@@ -130,6 +132,29 @@ func (m *mon) send() {
 		if data, err := stakingcontract.StakingContract.ABI.Pack("delegate", vals[0].OperatorAddress, big.NewInt(1_000_000)); err == nil {
 			sp.Call = pkt.CallSpec{Kind: kind, Contract: syscontracts.StakingContractAddress, Data: data}
 		}
+	case "agent-second-hop":
+		// tokens go to the agent contract of the destination, which sends them on to the third chain: the second hop is
+		// a packet whose sender AND callback is a system contract (its callback consults the recorded outcome)
+		if sp.Token == nil || sp.Token.Origin != sp.Src || sp.Token.Addr == core.ZeroAddr {
+			sp.Call = s.CallTo(sp.Dst, "counter")
+			break
+		}
+		var third *core.Node
+		for _, n := range s.W.Nodes {
+			if n != sp.Src && n != sp.Dst {
+				third = n
+			}
+		}
+		recvr := pkt.LowerHex(s.RandUser().Eth)
+		if s.Rng.Intn(2) == 0 {
+			recvr = "not-an-address" // the second hop then fails on the third chain: its error acknowledgement must be processed
+		}
+		data, err := agentcontract.AgentContract.ABI.Pack("send", sp.Token.AddrOn(sp.Dst), recvr, third.Name, big.NewInt(0))
+		if err != nil {
+			break
+		}
+		sp.Receiver = strings.ToLower(agentcontract.AgentContractAddress.Hex())
+		sp.Call = pkt.CallSpec{Kind: kind, Contract: syscontracts.AgentContractAddress, Data: data}
 	default:
 		sp.Call = s.CallTo(sp.Dst, kind)
 	}
@@ -167,6 +192,18 @@ func (m *mon) recv() {
 			if p.AckWritten != nil && p.AckCode == 0 {
 				m.r.Violation(m.cid, "acks/success-acknowledgement-for-a-failed-callback/"+p.Spec.Call.Kind, map[string]interface{}{"packet": p.Key(), "spec": p.Spec.Describe(), "log": s.Log})
 			}
+		}
+		// packets sent on by the destination while it executed this one (agent second hop) are packets like any other
+		for _, e := range core.SendPackets(o.Result.Events) {
+			if e.SrcChain != p.DstN.Name {
+				continue
+			}
+			var q packettypes.Packet
+			if q.ABIDecode(e.Packet) != nil || s.W.ByName[q.DstChain] == nil {
+				continue
+			}
+			s.Register(&core.SentPacket{Bytes: e.Packet, Packet: q, Src: q.SrcChain, Dst: q.DstChain}, pkt.SendSpec{Src: p.DstN, Dst: s.W.ByName[q.DstChain], User: s.W.Admin, Call: pkt.CallSpec{Kind: "second-hop"}}, p.DstN)
+			m.r.Count("second_hop_packets_sent_by_the_agent", 1)
 		}
 		m.afterTx(p.DstN, o, p, nil)
 	} else {
@@ -261,7 +298,14 @@ func (m *mon) deliverAck(p *pkt.Pkt, msg *packettypes.MsgAcknowledgement, signer
 		m.afterTx(p.SrcN, o, nil, p)
 		return
 	}
-	// rejected: nothing may change
+	// rejected
+	if variant == "honest" && !wasAcked && strings.EqualFold(p.Packet.Sender, agentcontract.AgentContractAddress.Hex()) {
+		// the sender (and callback) of this packet is the agent system contract: an honest acknowledgement of it that can
+		// never be processed leaves the forwarded value locked for good
+		var a packettypes.Acknowledgement
+		_ = a.ABIDecode(msg.Acknowledgement)
+		m.r.Violation(m.cid, fmt.Sprintf("ack/honest-acknowledgement-of-an-agent-hop-rejected/code-%d", a.Code), map[string]interface{}{"packet": p.Key(), "vmerr": vmErr(o), "log": s.Log})
+	}
 	if len(o.Diff) != 0 {
 		m.r.Violation(m.cid, "ack/rejected-but-state-changed/"+variant, map[string]interface{}{"packet": p.Key(), "diff": core.TrimDiff(o.Diff, 8), "log": s.Log})
 	}
@@ -533,4 +577,11 @@ func (m *mon) afterTx(n *core.Node, o *pkt.Obs, recvd, acked *pkt.Pkt) {
 	m.acks[n.Name] = acks
 	m.comms[n.Name] = comms
 	m.r.Count("store_diffs_checked", 1)
+}
+
+func vmErr(o *pkt.Obs) string {
+	if o.Eth != nil {
+		return o.Eth.VmError
+	}
+	return o.Log
 }
